@@ -322,7 +322,9 @@ sqf::runtime::runtime::result sqf::runtime::runtime::execute(sqf::runtime::runti
             m_is_exit_requested = false;
             m_is_halt_requested = false;
             m_run_timestamp = std::chrono::system_clock::now();
-            auto scopeNum = m_context_active->frames_size() - 1;
+            // There may be no active context yet (nothing was started or stepped so far)
+            auto scopeFrames = context_active().frames_size();
+            auto scopeNum = scopeFrames == 0 ? 0 : scopeFrames - 1;
             m_state = state::running;
             while (!m_is_exit_requested && !m_is_halt_requested && !m_contexts.empty())
             {
@@ -332,7 +334,7 @@ sqf::runtime::runtime::result sqf::runtime::runtime::execute(sqf::runtime::runti
                 {
                     break;
                 }
-                if (m_context_active->frames_size() <= scopeNum)
+                if (context_active().frames_size() <= scopeNum)
                 {
                     break;
                 }
@@ -569,9 +571,9 @@ sqf::runtime::runtime::result sqf::runtime::runtime::execute(sqf::runtime::runti
             std::optional<diagnostics::diag_info> dinf;
             while (!m_is_exit_requested && !m_is_halt_requested && !m_contexts.empty())
             {
-                if (!dinf.has_value())
+                if (!dinf.has_value() && !context_active().empty())
                 {
-                    auto next_inst = m_context_active->current_frame().peek(success);
+                    auto next_inst = context_active().current_frame().peek(success);
                     if (success)
                     {
                         dinf = { (*next_inst)->diag_info() };
@@ -584,9 +586,9 @@ sqf::runtime::runtime::result sqf::runtime::runtime::execute(sqf::runtime::runti
                 {
                     break;
                 }
-                if (dinf.has_value())
+                if (dinf.has_value() && !context_active().empty())
                 {
-                    auto next_inst = m_context_active->current_frame().peek(success);
+                    auto next_inst = context_active().current_frame().peek(success);
                     if (success && dinf.value() != (*next_inst)->diag_info())
                     {
                         break;
